@@ -14,7 +14,7 @@ from .common import V, run_cases
 
 PROP = "C02"
 NAN = alpha.NAN
-NMAX = {"quick": 4, "thorough": 5}
+NMAX = {"quick": 4, "thorough": 6}
 BUDGET = {"quick": 900, "thorough": 3400}
 DAY = 86400
 
@@ -28,7 +28,7 @@ META = dict(
          "spike end points, first speed point, single-point density, climatology point no member matches, attenuated "
          "window below the minimum); present observation flagged MISSING -> a needed input (own depth/coordinates, the "
          "neighbour it is differenced against) must be missing. + 2-D inputs in C / Fortran / transposed layout (NaN and masked) for the pointwise tests: MISSING must sit on the missing elements. non-trivial = the case contains a missing marker",
-    bounds={"quick": {"max_len": 4}, "thorough": {"max_len": 5}},
+    bounds={"quick": {"max_len": 4}, "thorough": {"max_len": 6}},
     not_judged=["which of GOOD/SUSPECT/FAIL a present point gets (C03-C14)",
                 "positions with exactly one coordinate missing count as present (C14 makes them FAIL)"],
     assumptions=[],
